@@ -218,16 +218,15 @@ Definition diff_vs_m (n1 : Z) (f1 : list (list Z * (Z * Z))) (v1 : list Z) (n2 :
 (** diff(): the switch on tag1 (regenerated), then the per-kind routine.  Both objects must be of the kind the
     tag of the first one selects; otherwise the C code reads ref2 through the wrong interface, which is
     outside the modelled domain (value 0 here, excluded by [comparable] in the theorems). *)
-Definition diff_obj (o1 o2 : obj) : Z :=
-  match zassoc (obj_tag o1) diff_switch, o_body o1, o_body o2 with
+Definition diff_obj_tag (tag1 : Z) (o1 o2 : obj) : Z :=
+  match zassoc tag1 diff_switch, o_body o1, o_body o2 with
   | Some 0, BSds t1 d1 v1 a1, BSds t2 d2 v2 a2 => diff_sds_m t1 d1 v1 a1 t2 d2 v2 a2
   | Some 1, BGr t1 c1 x1 y1 v1, BGr t2 c2 x2 y2 v2 => diff_gr_m t1 c1 x1 y1 v1 t2 c2 x2 y2 v2
   | Some 2, BVd n1 f1 v1, BVd n2 f2 v2 => diff_vs_m n1 f1 v1 n2 f2 v2
   | _, _, _ => 0
   end.
+Definition diff_obj (o1 o2 : obj) : Z := diff_obj_tag (obj_tag o1) o1 o2.
 
-(** `if (flags[0] && flags[1]) nfound += diff(...)`: an object present in one file only is listed in the table
-    (and printed by -b) but contributes nothing to the count -- see match_added_object_refuted *)
 Definition entry_cost (e : mentry) : Z :=
   match e with Both a b => diff_obj a b | Only1 _ => 0 | Only2 _ => 0 end.
 
@@ -253,6 +252,42 @@ Definition gattr_missing (g1 : list attr) (b : attr) : Z :=
   match find_attr (a_name b) g1 with None => 1 | Some _ => 0 end.
 Definition gattr_diff_m (g1 g2 : list attr) : Z :=
   zsum (map (gattr_one g2) g1) + zsum (map (gattr_missing g1) g2).
+
+(** hdiff_table.c : the object table.  dtable_init allocates dtable_init_size entries; dtable_add doubles the
+    table when it is full and initialises entries (tag = ref = -1) from index dtable_grow_from on (all regenerated).
+    An entry is (tag, object); only the stored entries (index < nobjs) are kept in the list. *)
+Record dtable := mkdt { dt_size : Z; dt_objs : list (Z * obj) }.
+Definition dtable_init_m : dtable := mkdt dtable_init_size [].
+
+Fixpoint reset_from (from i : Z) (l : list (Z * obj)) : list (Z * obj) :=
+  match l with
+  | [] => []
+  | (t, o) :: r => (if from <=? i then (-1, o) else (t, o)) :: reset_from from (i + 1) r
+  end.
+
+Definition dtable_add_m (t : dtable) (o : obj) : dtable :=
+  let n := Z.of_nat (length (dt_objs t)) in
+  let t' := if negb (dtable_full n (dt_size t) =? 0)
+            then let size' := dt_size t * dtable_grow_factor in
+                 mkdt size' (reset_from (dtable_grow_from n size') 0 (dt_objs t))
+            else t in
+  mkdt (dt_size t') (dt_objs t' ++ [(obj_tag o, o)]).
+
+Definition dtable_build (l : list obj) : dtable := fold_left dtable_add_m l dtable_init_m.
+Definition table_tags (l : list obj) : list Z := map fst (dt_objs (dtable_build l)).
+
+(** match() + diff() with the tags as they stand in the first file's table: the entries of cmatch come in the
+    order of the first list, so each Both / Only1 entry consumes the next tag *)
+Fixpoint costs_tab (es : list mentry) (tags : list Z) : Z :=
+  match es with
+  | [] => 0
+  | Both a b :: r => (match tags with t :: _ => diff_obj_tag t a b | [] => 0 end) + costs_tab r (tl tags)
+  | Only1 _ :: r => costs_tab r (tl tags)
+  | Only2 _ :: r => costs_tab r tags
+  end.
+Definition match_tab_m (l1 l2 : list obj) : Z := costs_tab (cmatch l1 l2) (table_tags l1).
+Definition hdiff_tab_m (f1 f2 : file) : Z := match_tab_m (f_objs f1) (f_objs f2) + gattr_diff_m (f_gattrs f1) (f_gattrs f2).
+Definition hdiff_tab_exit_m (f1 f2 : file) : Z := if hdiff_tab_m f1 f2 =? 0 then 0 else 1.
 
 (** hdiff(): number of differences; the tool exits 1 when it is non-zero.  (diff_match_dim, the comparison of
     named dimension scales, is not modelled: the generated files carry no dimension scales.) *)
@@ -296,6 +331,30 @@ Definition dump_sds_m (dims vals : list Z) : option (list Z) :=
   | None => None
   | Some rows => Some (flat_map (fun st => firstn (Z.to_nat rowlen) (skipn (Z.to_nat (spec_offset outer st * rowlen)) vals)) rows)
   end.
+
+(** show.c : dumpvd's ASCII loop.  The Vdata is read in pieces of `chunk` records when it exceeds BUFFER bytes;
+    the transfer buffer is modelled by the record numbers its slots hold (a shorter last piece leaves stale
+    records behind it); after each read the first dumpvd_print_bound records of the buffer are printed.  All
+    conditions and the bound are regenerated.  Result: the record numbers printed, in order. *)
+Fixpoint zseqn (s : Z) (n : nat) : list Z := match n with O => [] | S n' => s :: zseqn (s + 1) n' end.
+
+Fixpoint vd_loop (fuel : nat) (nv chunk done : Z) (buf : list Z) : option (list Z) :=
+  match fuel with
+  | O => None
+  | S f =>
+      if dumpvd_continue done nv =? 0 then Some []
+      else
+        let count := if negb (dumpvd_more nv done chunk =? 0) then chunk else nv - done in
+        let buf' := zseqn done (Z.to_nat count) ++ skipn (Z.to_nat count) buf in
+        match vd_loop f nv chunk (done + count) buf' with
+        | Some l => Some (firstn (Z.to_nat (dumpvd_print_bound chunk count nv)) buf' ++ l)
+        | None => None
+        end
+  end.
+
+Definition dumpvd_m (nv vsize : Z) : option (list Z) :=
+  let chunk := if negb (dumpvd_split nv vsize =? 0) then dumpvd_chunk vsize else nv in
+  vd_loop (S (Z.to_nat nv)) nv chunk 0 [].
 
 (** decimal text of an integer (what printf %d / %u / %ld / %lu produce), most significant digit first *)
 Fixpoint dec_rev (fuel : nat) (n : Z) : list Z :=
